@@ -16,7 +16,11 @@ fn clamp_to_bounds(p: Point, height: i32, width: i32) -> Point {
 // The outline is drawn such that the bounding box of the outermost pixels
 // will be `rect`.
 pub fn stroke_rect<T: Copy>(mut mask: NdTensorViewMut<T, 2>, rect: Rect, value: T, width: u32) {
-    let width = width as i32;
+    // Limit the border width so that the borders stay inside `rect`.
+    let width = i32::try_from(width)
+        .unwrap_or(i32::MAX)
+        .min(rect.width().max(0))
+        .min(rect.height().max(0));
 
     // Left edge
     fill_rect(
@@ -176,6 +180,18 @@ pub fn draw_line<T: Copy>(mut image: NdTensorViewMut<T, 2>, line: Line, value: T
         // in Pillow (https://pillow.readthedocs.io/en/stable/) used as a reference.
         let img_height: i32 = image.rows().try_into().unwrap();
         let img_width: i32 = image.cols().try_into().unwrap();
+
+        // Skip lines that are entirely above, below, left or right of the
+        // image. Otherwise clamping the end points would draw the line along
+        // the edge of the image.
+        let (start, end) = (line.start, line.end);
+        if (start.y < 0 && end.y < 0)
+            || (start.y >= img_height && end.y >= img_height)
+            || (start.x < 0 && end.x < 0)
+            || (start.x >= img_width && end.x >= img_width)
+        {
+            return;
+        }
 
         let start = clamp_to_bounds(line.start, img_height, img_width);
         let end = clamp_to_bounds(line.end, img_height, img_width);
